@@ -32,7 +32,7 @@ ASSUMPTIONS = [
     "value-less annotations (a: int) are not compared: they bind nothing at module/class level",
     "scope-for-line is checked at the first line/offset of statements directly in a scope body (lines shared by several scopes are ambiguous)",
 ]
-BUDGET = {"quick": (4000, 240), "thorough": (100000, 2700)}
+BUDGET = {"quick": (12000, 240), "thorough": (160000, 2700)}
 # thorough tier: rope modules instrumented for the coverage-guided (atheris) stage, see vlib/fuzzworker.py
 FUZZ_MODULES = ["rope.base.pyscopes", "rope.base.pyobjectsdef", "rope.base.pynamesdef", "rope.base.builtins", "rope.base.codeanalyze"]
 
